@@ -674,7 +674,36 @@ def judge_constructions(ctx, U, probes):
         ctx.sig("construct", U.name, U.flag, kind, len(items), len(M))
 
 
+def directed_comparison_totality(ctx):
+    """<=, <, >=, >, ==, != between a KeyedSet and a built-in set / frozenset give an answer (a bool) whatever the operand
+    holds - in particular for KeyedSets of *unhashable* items, which a built-in set cannot contain, against built-in sets of
+    bare keys of every size around len(s). Only totality is judged here: which answer a set of bare keys gets is UNSPECIFIED."""
+    import operator
+
+    from spec_classes.types import KeyedSet
+
+    for label, items in (("unhashable lists", [[1, "a"], [2, "b"]]), ("tuples", [(1, "a"), (2, "b")])):
+        for flag in (False, True):
+            for n in (0, 1, 2):
+                ks = KeyedSet(items[:n], key=lambda it: it[0], enforce_item_equivalence=flag)
+                for other in (set(), {1}, {1, 2}, {1, 2, 3}, frozenset({1, 2, 3}), {7, 8, 9}, frozenset()):
+                    for op in (operator.le, operator.lt, operator.ge, operator.gt, operator.eq, operator.ne):
+                        ctx.count("ops_judged")
+                        ctx.count("comparison_totality_cases")
+                        try:
+                            r = op(ks, other)
+                            bad = None if isinstance(r, bool) else f"returned {r!r}"
+                        except Exception as e:
+                            bad = f"raised {type(e).__name__}: {e}"
+                        if bad:
+                            ctx.violation("comparison_total", f"[directed] KeyedSet of {n} {label} (key = it[0], enforce_item_equivalence={flag}) {op.__name__} {other!r}: {bad}; a comparison with a built-in set must answer True or False",
+                                          features={"op": op.__name__, "items": label, "flag": flag, "n": n, "operand": type(other).__name__}, case=["cmp_total", label, flag, n, op.__name__, sorted(other)])
+    ctx.sig("directed", "comparison_totality")
+
+
 def run(ctx, params):
+    if params.get("mode") == "directed":
+        return directed_comparison_totality(ctx)
     U = Universe(params["universe"], params["flag"])
     rng = ctx.rng
     probes = {"keys": list(U.keys) + U.absent_keys, "items": [U.make(s) for s in U.specs]}
@@ -726,7 +755,7 @@ def run(ctx, params):
 
 
 def plan(tier, seed):
-    shards = []
+    shards = [{"mode": "directed"}]
     for u in UNIVERSES:
         for flag in (False, True):
             if tier == "quick":
